@@ -264,6 +264,9 @@ fn mask_dates(bs: &[u8]) -> Vec<u8> {
     v
 }
 
+/// idle points probed per case (each costs one partial re-run)
+const MAX_PROBED_IDLE: usize = 16;
+
 fn show_outcome(o: &Outcome) -> String {
     match o {
         Outcome::DoneOk => "ok".into(),
@@ -271,6 +274,7 @@ fn show_outcome(o: &Outcome) -> String {
         Outcome::Idle => "idle".into(),
         Outcome::Stalled => "STALLED".into(),
         Outcome::Spin => "SPIN".into(),
+        Outcome::ProbeStop => "probe-stop".into(),
     }
 }
 
@@ -291,14 +295,26 @@ fn run(line: &str) -> CaseResult {
         return CaseResult { output: "bad-case".into(), fail: None, nontrivial: false, tags: vec!["bad-case".into()] };
     };
     let log = &r.log;
+    // quiescence at every idle point: re-run up to the k-th idle point and poll once spuriously
+    let n_idle = r.trace.iter().filter(|t| t.starts_with('I')).count();
+    let mut lost: Option<(usize, String)> = None;
+    for k in 0..n_idle.min(MAX_PROBED_IDLE) {
+        if let Some(rk) = run_case_probe(&case, Some(k)) {
+            if let Some(what) = rk.probe {
+                lost = Some((k, what));
+                break;
+            }
+        }
+    }
     let output = format!(
-        "{}{} acc={} calls={} sd={} tr={}",
+        "{}{} lw={} acc={} calls={} sd={} tr={}",
         show_outcome(&r.outcome),
         match (&r.outcome, &r.probe) {
             (Outcome::Idle | Outcome::Stalled, Some(_)) => "/progress-on-spurious-poll",
             (Outcome::Idle | Outcome::Stalled, None) => "/quiescent",
             _ => "",
         },
+        lost.as_ref().map(|l| l.0.to_string()).unwrap_or_else(|| "-".into()),
         log.accepted.len(),
         log.called.len(),
         log.shutdown_done as u8,
@@ -338,6 +354,14 @@ fn run(line: &str) -> CaseResult {
         res.tags.push("read-cap".into());
     }
 
+    // ---- oracle 0: Pending-with-no-wake must mean "nothing to do": a spurious poll is a no-op
+    if let Some((k, what)) = &lost {
+        let sig = if log.consumed.iter().any(|e| e.4) { "lost-wakeup-after-payload-drop" } else { "lost-wakeup" };
+        return res.fail(
+            sig,
+            format!("at idle point {} (task Pending, not woken, waiters {}) a spurious poll makes progress: {}", k, r.trace.iter().filter(|t| t.starts_with('I')).nth(*k).cloned().unwrap_or_default(), what),
+        );
+    }
     // ---- oracle 1: every accepted byte belongs to exactly one response, in request order
     let parsed = match parse_responses(&log.accepted) {
         Ok(p) => p,
@@ -423,7 +447,7 @@ fn run(line: &str) -> CaseResult {
                 );
             }
         }
-        Outcome::DoneErr(_) => {}
+        Outcome::DoneErr(_) | Outcome::ProbeStop => {}
     }
     // ---- oracle 4 (metamorphic): the write/flush/shutdown schedule must not change the bytes
     if !case.wops.is_empty() || !case.fops.is_empty() || !case.sops.is_empty() {
@@ -462,10 +486,12 @@ fn body_errored(case: &Case, log: &Log, k: usize, finals: &[&ParsedResp]) -> boo
 }
 
 /// class in which the accepted bytes are a function of the inputs alone (not of the write
-/// schedule): no request bodies (the close-for-unread-payload decision depends on timing), half
+/// schedule): at most 12 requests (a full pipeline queue stops decoding, and what is still
+/// undecoded when the peer half-closes is dropped), no request bodies (the close-for-unread-payload decision depends on timing), half
 /// close allowed, no reset / silence / write-zero, no timers, no body errors
 fn meta_class(c: &Case) -> bool {
     c.cfg.half_closed
+        && c.reqs.len() <= 12
         && c.cfg.ka.is_none()
         && c.cfg.disc == 0
         && c.cfg.head == 0
@@ -629,18 +655,123 @@ fn gen_case(rng: &mut Rng, flavour: usize) -> String {
     t.join(" ")
 }
 
+/// back-pressure flavour: one large request body (the 32 KiB payload pause and the 128 KiB read
+/// cap are reached), a handler that waits / reads a little / drops / moves the payload, optionally
+/// a pipelined follow-up request, a peer that goes on sending, half-closes, or goes silent
+fn gen_backpressure(rng: &mut Rng) -> String {
+    let mut t: Vec<String> = Vec::new();
+    if rng.chance(1, 2) {
+        t.push("ka=5".into());
+    }
+    if rng.chance(1, 4) {
+        t.push("D=1".into());
+    }
+    if rng.chance(1, 5) {
+        t.push(format!("q={}", rng.pick(&[100usize, 1000, 1024])));
+    }
+    let total = *rng.pick(&[34000usize, 40000, 70000, 140000, 170000, 270000, 330000]);
+    let body = if rng.chance(3, 4) {
+        // chunked: 1..4 chunks summing to `total`
+        let n = rng.range(1, 4);
+        let mut left = total;
+        let mut cs = Vec::new();
+        for i in 0..n {
+            let c = if i + 1 == n { left } else { rng.range(1, left.saturating_sub(n - i).max(1)) };
+            if c == 0 {
+                break;
+            }
+            cs.push(c);
+            left -= c;
+            if left == 0 {
+                break;
+            }
+        }
+        ReqBody::Chunked(cs)
+    } else {
+        ReqBody::Sized(total)
+    };
+    let bs = match &body {
+        ReqBody::Sized(n) => format!("s{}", n),
+        ReqBody::Chunked(v) => format!("c{}", v.iter().map(|n| n.to_string()).collect::<Vec<_>>().join(".")),
+        ReqBody::None => "n".into(),
+    };
+    let hs = *rng.pick(&["q", "qd", "qdq", "pd", "qr", "qrd", "qrq", "qa", "dq", "qq", "qrrd", "pqd", "qm", "mq", "qmq", "a", "d", "-"]);
+    let cs = if hs.contains('m') { *rng.pick(&["d", "rd", "rrd", "r", ""]) } else { "" };
+    let resp = match rng.below(5) {
+        0 => "Z".to_owned(),
+        1 => "N".to_owned(),
+        2 => format!("C{}", gen_bsteps(rng, false)),
+        _ => format!("S{}", gen_bsteps(rng, false)),
+    };
+    let hl = min_head_len(0, &body) + rng.below(30);
+    let mut q = format!("Q:{}:{}:{}:{}", hl, bs, hs, resp);
+    if !cs.is_empty() || hs.contains('m') {
+        q.push(':');
+        q.push_str(cs);
+    }
+    t.push(q);
+    let mut wire = hl
+        + match &body {
+            ReqBody::Sized(n) => *n,
+            ReqBody::Chunked(v) => v.iter().map(|n| hexlen(*n) + 2 + n + 2).sum::<usize>() + 5,
+            ReqBody::None => 0,
+        };
+    if rng.chance(1, 3) {
+        let (q2, wl) = gen_req(rng, 1, false, false);
+        t.push(q2);
+        wire += wl;
+    }
+    // read script
+    let mut left = wire;
+    for _ in 0..rng.below(4) {
+        if left == 0 {
+            break;
+        }
+        let k = rng.range(1, left);
+        t.push(format!("R{}", k));
+        left -= k;
+        t.push("RP".into());
+    }
+    if left > 0 && !rng.chance(1, 10) {
+        t.push(format!("R{}", left));
+    }
+    match rng.below(6) {
+        0 | 1 => t.push("RZ".into()),
+        2 => {
+            t.push("RP".into());
+            t.push("RE".into())
+        }
+        _ => {}
+    }
+    for _ in 0..rng.below(4) {
+        t.push(match rng.below(4) {
+            0 => "WP".into(),
+            1 => "FP".into(),
+            _ => format!("W{}", rng.range(1, 200)),
+        });
+    }
+    let n = rng.below(8);
+    if n > 0 {
+        let letters = if hs.contains('m') { "rrhhcccb" } else { "rrrhhhbw" };
+        let e: String = (0..n).map(|_| letters.as_bytes()[rng.below(letters.len())] as char).collect();
+        t.push(format!("E:{}", e));
+    }
+    t.join(" ")
+}
+
 fn gen(ctx: &Ctx) -> Vec<String> {
     let mut rng = Rng::new(ctx.seed);
     let mut cases = Vec::new();
-    let n = ctx.budget(1500);
+    let n = ctx.budget(2000);
     for i in 0..n {
         let flavour = match i % 10 {
-            0..=3 => 0,
-            4..=6 => 1,
-            7 => 2,
-            _ => 3,
+            0..=2 => 0,
+            3..=5 => 1,
+            6 => 2,
+            7 => 3,
+            _ => 4,
         };
-        cases.push(gen_case(&mut rng, flavour));
+        cases.push(if flavour == 4 { gen_backpressure(&mut rng) } else { gen_case(&mut rng, flavour) });
     }
     let _ = Tier::Quick;
     cases
